@@ -407,6 +407,23 @@ impl Check for C13 {
             vec![(0, false), (4 * s, true), (4 * s + s / 2, false), (30 * s, true)],
             vec![(3 * s, false), (9 * s, true), (15 * s, false), (21 * s, true), (40 * s, false), (46 * s, true)],
         ];
+        let mut schedules = schedules;
+        if tier == Tier::Thorough {
+            // every alternating down/up schedule over up to three instants of a menu
+            let menu = [0u64, 2 * s + s / 2, 7 * s, 12 * s + s / 4, 20 * s, 33 * s];
+            for a in 0..menu.len() {
+                schedules.push(vec![(menu[a], false)]);
+                for b in (a + 1)..menu.len() {
+                    schedules.push(vec![(menu[a], false), (menu[b], true)]);
+                    for c in (b + 1)..menu.len() {
+                        schedules.push(vec![(menu[a], false), (menu[b], true), (menu[c], false)]);
+                        for d in (c + 1)..menu.len() {
+                            schedules.push(vec![(menu[a], false), (menu[b], true), (menu[c], false), (menu[d], true)]);
+                        }
+                    }
+                }
+            }
+        }
         for interval in [1_000u64, 5_000] {
             for jitter in [0u64, 900] {
                 for (step, max) in [(1_000u64, 3_000u64), (1_000, 60_000), (3_000, 60_000), (10_000, 15_000)] {
